@@ -81,7 +81,7 @@ mod vk_iter {
         (b, admitted, items, ended)
     }
 
-    // @harness name=iter_next props=C01,C02,C04,C05,C07,C09,C11 kind=bounded bound="fruitless polls <= 2; ticket, yielded, iterator position over the full usize domain"
+    // @harness name=iter_next props=C01,C02,C04,C05,C06,C07,C09,C11 kind=bounded bound="fruitless polls <= 2; ticket, yielded, iterator position over the full usize domain"
     #[kani::proof]
     #[kani::unwind(18)]
     #[kani::stub(std::sync::atomic::Atomic::<usize>::fetch_add, a_faa)]
@@ -105,13 +105,13 @@ mod vk_iter {
             }
             None => {
                 assert!(items == 0, "[C01 iter-none-lost] no item is taken from the wrapped iterator and then dropped");
-                if admitted && st().flag_mode == 2 { assert!(ended, "[C05 C11 iter-none] an admitted holder returns None only when the source ended"); }
+                if admitted && st().flag_mode == 2 { assert!(ended, "[C05 C06 C11 iter-none] an admitted holder returns None only when the source ended"); }
             }
         }
         let _ = len;
     }
 
-    // @harness name=iter_chunk props=C01,C02,C03,C04,C05,C07,C09,C11,C16 kind=bounded bound="chunk size <= 2; fruitless polls <= 2; ticket, yielded, iterator position over the full usize domain"
+    // @harness name=iter_chunk props=C01,C02,C03,C04,C05,C06,C07,C09,C11,C16 kind=bounded bound="chunk size <= 2; fruitless polls <= 2; ticket, yielded, iterator position over the full usize domain"
     #[kani::proof]
     #[kani::unwind(18)]
     #[kani::stub(std::sync::atomic::Atomic::<usize>::fetch_add, a_faa)]
@@ -147,7 +147,7 @@ mod vk_iter {
                     let mut set = false;
                     let mut i = 0;
                     while i < LOGN { if i < s.n && s.log[i].loc == 3 && s.log[i].kind == 6 && s.log[i].arg == 1 { set = true; } i += 1; }
-                    assert!(set, "[C05 C11 iter-end-flag] a one-shot chunk pull that finds the source exhausted records the end (`completed`), so has_more is No afterwards");
+                    assert!(set, "[C05 C06 C11 iter-end-flag] a one-shot chunk pull that finds the source exhausted records the end (`completed`), so has_more is No afterwards");
                 }
             }
         }
@@ -197,7 +197,7 @@ mod vk_iter {
         kani::cover!(len == 2 && sel == 0, "usize::MAX on two elements");
         if len == 0 { assert!(r.is_none(), "[C16 C03 iter-extreme-chunk] an extreme chunk size on an empty source reports the end"); }
         else { assert!(r == Some((0, len, Some(0))), "[C16 C03 iter-extreme-chunk] an extreme chunk size delivers exactly the rest of the source and does not panic"); }
-        assert!(it.next().is_none(), "[C16 C05 iter-extreme-chunk] afterwards the iterator is exhausted");
+        assert!(it.next().is_none(), "[C16 C05 C06 iter-extreme-chunk] afterwards the iterator is exhausted");
     }
 
     // @harness name=iter_chunk_zero props=C16,C11 kind=bounded bound="fruitless polls <= 2"
